@@ -1096,6 +1096,26 @@ def c06(ctx, tr):
     n_pairs = 0
     n_unstable = 0
     for c in tr.calls:
+        if c['op'] == 'check_stability':
+            M = tuple(c['kw']['assignment'])
+            bp = rm.blocking_pairs(I, M)
+            n_pairs += 1
+            n_unstable += int(bool(bp))
+            res['probes']['direct-check_stability-call'] = 1
+            if c.get('solve_index', 0) == 0:
+                res['probes']['direct-call-before-first-solve'] = 1
+            want = 'bool:%r' % (not bp)
+            if c['text'] != want:
+                kind = 'check_stability-wrong' if c['text'].startswith(
+                    'bool:') else 'check_stability-not-a-boolean'
+                res['violations'].append(
+                    (kind, 'says-%s-is-%s' % (c['text'], not bp) + (
+                        ':' + bp[0][2] if bp else ''),
+                     {'matching': M, 'returned': c['text'],
+                      'reference': not bp, 'blocking_pairs': bp[:3],
+                      'direct': True,
+                      'history': [x['op'] for x in tr.calls]}))
+            continue
         if c['op'] not in ('get_results', 'get_results_short',
                            'get_results_long'):
             continue
